@@ -161,10 +161,22 @@ pub(crate) fn parse_macro_args(
     })
 }
 
+/// Parses `tokens` as exactly one expression: a trailing comma is allowed after it, anything
+/// else is not (`None`).
 pub(crate) fn parse_expr(
     context: &RewriteContext<'_>,
     tokens: TokenStream,
 ) -> Option<ptr::P<ast::Expr>> {
     let mut parser = build_parser(context, tokens);
-    parser.parse_expr().ok()
+    let expr = match parser.parse_expr() {
+        Ok(expr) => expr,
+        Err(e) => {
+            e.cancel();
+            return None;
+        }
+    };
+    if parser.token.kind == TokenKind::Comma {
+        parser.bump();
+    }
+    (parser.token.kind == TokenKind::Eof).then_some(expr)
 }
